@@ -72,6 +72,11 @@ var scalarIDs = []uint16{cqlspec.TInt, cqlspec.TVarchar, cqlspec.TBigint, cqlspe
 // their bytes to reach the decoders.
 var extraScalars = false
 
+// genShortUDT allows UDT values that end before the type does (cells of responses only: the
+// driver itself always writes every field); shortUDTs counts them.
+var genShortUDT = false
+var shortUDTs = 0
+
 // genValueDepth is the nesting depth of the value being generated (root goroutine only).
 var genValueDepth = 0
 
@@ -369,7 +374,14 @@ func genValue(tp *kernel.Tape, t wType, proto int) (interface{}, []byte) {
 	case cqlspec.TUDT:
 		m := map[string]interface{}{}
 		var cells []cqlspec.Cell
-		for i, et := range t.Elems {
+		elems := t.Elems
+		if genShortUDT && len(elems) >= 2 && tp.Chance(1, 5) {
+			// a value written before the type was extended (ALTER TYPE ... ADD): it ends after
+			// the fields the type had then, the fields added since are null
+			elems = elems[:1+tp.Next(len(elems)-1)]
+			shortUDTs++
+		}
+		for i, et := range elems {
 			v, b := genValue(tp, et, proto)
 			m[t.Fields[i]] = v
 			cells = append(cells, cqlspec.Cell{Bytes: b})
@@ -452,7 +464,18 @@ func sameValue(got, want interface{}) bool {
 		}
 		return true
 	case reflect.Map:
-		if gv.Len() != wv.Len() {
+		if _, udt := want.(map[string]interface{}); udt && gv.Len() > wv.Len() {
+			// a UDT value shorter than its type: the fields it does not have are null, which
+			// a map may express by leaving them out or by their zero values
+			for _, k := range gv.MapKeys() {
+				if wv.MapIndex(k).IsValid() {
+					continue
+				}
+				if x := gv.MapIndex(k).Elem(); x.IsValid() && !x.IsZero() && !((x.Kind() == reflect.Slice || x.Kind() == reflect.Map) && x.Len() == 0) {
+					return false
+				}
+			}
+		} else if gv.Len() != wv.Len() {
 			return false
 		}
 		for _, k := range wv.MapKeys() {
